@@ -22,7 +22,9 @@ RULE = ('every operator/helper instance (13 WireVector operators, invert, getite
         'bool, Verilog string, Const signed/unsigned/with bitwidth} x width pairs; operand values exhaustive '
         'for widths <= 4 (quick) / <= 5 (thorough), boundary values (0,1,2^k-1,2^(k-1),2^(k-1)-1,random) '
         'for widths up to 130; every WireVector operand kind (plain wire, Register, lazily materialised MemBlock / RomBlock '
-        'read) on either side of every operator; shared argument lists reused by several calls in one design (and '
+        'read) on either side of every operator; Verilog-style string operands in every radix (b o d h x and none), every digit in leading/middle/trailing '
+        'position, upper/lower case, underscores, leading zeros, negative forms, declared width = / > minimal, with '
+        'the value from an independent parse; shared argument lists reused by several calls in one design (and '
         'checked for mutation); int / Const(int) / Verilog-string operands k in {2^n-2..2^n+1} for n in {31,32,33,48,49,50,'
         '52,53,54,63,64,65,100,128} (Const(k) len, a+k, a-k, a&k, a*k, concat(a,k), w <<= k for w of n..n+2 bits); slices with bounds in {None,-n-1..n+1} and steps {None,1,2,-1,-2} (all of '
         'them for n <= 4/5, seeded samples above).  A case = (instance, widths, operand values); distinct by '
@@ -74,6 +76,8 @@ def spec_const(kind):
         return 'raise' if v < 0 else (v, bitlen(v))
     if t == 'bool':
         return (1 if kind[1] else 0, 1)
+    if t == 'vtext':
+        return spec_const(('vstr',) + tuple(kind[2:5]))
     if t == 'vstr':
         neg, bw, num = kind[1:]
         if neg and num:
@@ -121,6 +125,8 @@ def py_kind(kind):
         return repr(kind[1])
     if t == 'bool':
         return repr(bool(kind[1]))
+    if t == 'vtext':
+        return repr(kind[1])
     if t == 'vstr':
         neg, bw, num = kind[1:]
         return repr("%s%d'd%d" % ('-' if neg else '', bw, num))
@@ -145,6 +151,8 @@ def coq_kind(kind):
         return '(OInt %s)' % z(kind[1])
     if t == 'bool':
         return '(OBool %s)' % ('true' if kind[1] else 'false')
+    if t == 'vtext':
+        return '(OVStr %s %d %d)' % ('true' if kind[2] else 'false', kind[3], kind[4])
     if t == 'vstr':
         return '(OVStr %s %d %d)' % ('true' if kind[1] else 'false', kind[2], kind[3])
     if t == 'const':
@@ -508,10 +516,94 @@ def wirekind_instances(wa, wb):
     return L
 
 
+RADIXES = [('b', 2, 'bin'), ('o', 8, 'oct'), ('d', 10, 'dec'), ('h', 16, 'hex'), ('x', 16, 'hex-x'), ('', 10, 'bare-dec')]
+DIGITS = '0123456789abcdef'
+
+
+def vtext_kind(idx, letter, radix, rname, digits, width_extra=0, neg=False, upper=False, underscore=False,
+               leading_zero=False, too_narrow=False):
+    """a Verilog-style string written out in full, and its meaning from an INDEPENDENT parse:
+    value = int(digits, radix); declared width = minimal width of the value (+ width_extra)"""
+    num = int(digits, radix)
+    need = bitlen(num) + (1 if neg and num else 0)
+    bw = max(1, need - 1) if too_narrow and need > 1 else need + width_extra
+    body = digits
+    if leading_zero:
+        body = '0' + body
+    if underscore and len(body) > 1:
+        body = body[:1] + '_' + body[1:]
+    txt = letter + body
+    if upper:
+        txt = txt.upper()
+    text = "%s%d'%s" % ('-' if neg else '', bw, txt)
+    return ('vtext', text, neg, bw, num, rname)
+
+
+def string_kinds(full):
+    """string operands in every radix the syntax accepts: every digit of the radix in leading, middle and
+    trailing position (`full`: additionally every two-digit string), upper/lower case, underscores, leading
+    zeros, negative forms, declared width = / > the minimal width, and a few too-narrow ones"""
+    ks, idx = [], 0
+    for letter, radix, rname in RADIXES:
+        ds = DIGITS[:radix]
+        forms = []
+        for d in ds:
+            forms += [d + '1', '1' + d, '1' + d + '1', d + d, d]
+        forms += [a + b for a in ds for b in ds if radix != 16 or a in 'abcdef' or b in 'abcdef'] if full else []
+        # the letters that are also radix letters, in every pairing, at every position
+        both = [c for c in ds if c in 'bodhx']
+        forms += [a + b + c for a in both for b in both for c in list(ds[:2]) + both] + [a + '0' + b for a in both for b in both]
+        seen = set()
+        for f in forms:
+            if f in seen:
+                continue
+            seen.add(f)
+            idx += 1
+            ks.append(vtext_kind(idx, letter, radix, rname, f, width_extra=(0, 0, 1, 5)[idx % 4],
+                                 neg=(idx % 5 == 0), upper=(idx % 3 == 0), underscore=(idx % 4 == 1),
+                                 leading_zero=(idx % 7 == 3), too_narrow=(idx % 23 == 11)))
+    return ks
+
+
+def string_instances(wa, tier):
+    L = []
+    ops = INFIX + ['nand'] + SIGNED
+    for ki, kind in enumerate(string_kinds(tier != 'quick')):
+        pk, ck = py_kind(kind), coq_kind(kind)
+        c = spec_const(kind)
+        tag = kind_tag(kind)
+        L.append(Inst('Const:%s:len' % tag, 'kind', 'pyrtl.Const(%s)' % pk,
+                      'as_wires (OConst %s None false) None' % ck, (lambda va, vb, c=c: c)))
+        L.append(Inst('concat:a,%s' % tag, 'kind', 'pyrtl.concat(a, %s)' % pk,
+                      'lift2 (fun x y => concat [x; y]) (OWire a) %s' % ck,
+                      (lambda va, vb, c=c: 'raise' if c == 'raise' else ((va << c[1]) | c[0], wa + c[1]))))
+        for oi, op in enumerate(ops):
+            if tier == 'quick' and (ki + oi) % 5:
+                continue     # quick: every string meets a fifth of the operators (rotating), both sides
+            f = BIN_SPECS[op]
+            lift = 'lift2s' if op in ('signed_add', 'signed_mult') else 'lift2'
+            for side in ('r', 'l'):
+                if side == 'l' and op == 'nand':
+                    continue
+                x, y = ('a', pk) if side == 'r' else (pk, 'a')
+                cx, cy = ('(OWire a)', ck) if side == 'r' else (ck, '(OWire a)')
+                if c == 'raise':
+                    spec, mw = (lambda va, vb: 'raise'), None
+                elif side == 'r':
+                    spec, mw = (lambda va, vb, f=f, c=c: f(va, c[0], wa, c[1])), (wa, c[1])
+                else:
+                    spec, mw = (lambda va, vb, f=f, c=c: f(c[0], va, c[1], wa)), (wa, c[1])
+                L.append(Inst('%s:%s:%s' % (op, side, tag), 'kind', src_op(op, x, y),
+                              '%s %s %s %s' % (lift, COQ_BIN[op], cx, cy), spec, mul_widths=mw if op == '*' else None))
+    return L
+
+
 def kind_tag(kind):
     t = kind[0]
     if t == 'const':
         return 'Const(%s%s%s)' % (kind_tag(kind[1]), '' if kind[2] is None else ',bw', ',signed' if kind[3] else '')
+    if t == 'vtext':
+        return ('neg-' if kind[2] else '') + kind[5] + '-str'
     if t == 'vstr':
         return 'negstr' if kind[1] else 'str'
     if t == 'int':
@@ -765,6 +857,8 @@ def make_jobs(ctx, only=None):
     for (wa, wb) in ([(1, 2), (2, 1), (2, 2)] if tier == 'quick' else [(1, 1), (2, 3), (3, 2), (3, 3), (4, 1), (1, 4), (5, 4)]):
         jobs.append(Job('wirekinds', wirekind_instances(wa, wb), wa, wb,
                         [(x, y) for x in range(1 << wa) for y in range(1 << wb)], True))
+    # Verilog-style string operands written out in every radix / case / separator / sign form (both tiers)
+    jobs.append(Job('strings', string_instances(3, tier), 3, None, [(v, None) for v in range(8)], True))
     # large-magnitude int / Const(int) / string operands (both tiers)
     r = ctx.sub_rng('bigconst')
     jobs.append(Job('bigconst', bigconst_instances(8), 8, None,
